@@ -273,6 +273,7 @@ func ioErrors(sum *hx.Summary, w *hx.Writer) {
 		failFS  map[string]int
 	}
 	var cs []ioCase
+	var flagged []interface{}
 	for k := 0; k <= len(top); k++ {
 		cs = append(cs, ioCase{"top", top, k + 1, nil})
 	}
@@ -299,6 +300,12 @@ func ioErrors(sum *hx.Summary, w *hx.Writer) {
 		switch {
 		case failed && o.Err == nil:
 			sum.Mis("zone/hostile:io-error-lost:"+c.where, fmt.Sprintf("a reader failed with an I/O error after %d records; Err() is nil and %d records were returned in all", o.RecsAtFail, o.NRecs), info)
+		case o.ReadFails > 0 && o.NRecs == o.RecsAtFail+1:
+			// the entry that was being read when the reader failed comes back as a record with the RDATA read so far
+			sum.Mis("zone/hostile:half-read-record-at-io-error:"+c.where, "the reader failed in the middle of an entry (after its type) and that entry was returned as a record, with truncated or empty RDATA, before the error", info)
+		case o.ReadFails > 0 && o.NRecs > o.RecsAtFail && inIncludeLine(c.text, c.failTop-1, c.failFS, base()):
+			// the reader failed inside a $INCLUDE line, after the file name: the include is performed all the same
+			sum.Mis("zone/hostile:include-performed-at-io-error:"+c.where, fmt.Sprintf("the reader failed inside a $INCLUDE line after the file name; the file was included (with what had been read of the origin argument) and %d of its records were returned before the error", o.NRecs-o.RecsAtFail), info)
 		case o.ReadFails > 0 && o.NRecs > o.RecsAtFail:
 			sum.Mis("zone/hostile:record-after-io-error:"+c.where, fmt.Sprintf("%d records were returned after a reader had failed with an I/O error", o.NRecs-o.RecsAtFail), info)
 		case c.where == "directory":
@@ -308,11 +315,31 @@ func ioErrors(sum *hx.Summary, w *hx.Writer) {
 				}
 			}
 		}
-		w.Emit(map[string]interface{}{"ev": "parser", "allowed": true, "chain": false})
-		for _, e := range o.Events {
+		hist := append([]interface{}{map[string]interface{}{"ev": "parser", "allowed": true, "chain": false}}, o.Events...)
+		if failed && (o.Err == nil || o.NRecs > o.RecsAtFail) {
+			flagged = append(flagged, hist...) // (the machine blocks at the first history it rejects: these go last)
+			continue
+		}
+		for _, e := range hist {
 			w.Emit(e)
 		}
 	}
+	for _, e := range flagged {
+		w.Emit(e)
+	}
+}
+
+// inIncludeLine: does the failure offset fall inside a $INCLUDE line of the file whose reader fails?
+func inIncludeLine(top string, failTop int, failFS map[string]int, fsys fstest.MapFS) bool {
+	content, k := top, failTop
+	for n, kk := range failFS {
+		content, k = string(fsys[n].Data), kk
+	}
+	if k < 0 || k > len(content) {
+		return false
+	}
+	start := strings.LastIndex(content[:k], "\n") + 1
+	return strings.HasPrefix(strings.ToUpper(content[start:]), "$INCLUDE")
 }
 
 func hostile(out string) {
@@ -411,7 +438,9 @@ func hostile(out string) {
 			sum.Sample(map[string]interface{}{"family": c.fam, "text": short, "records": o.NRecs, "opens": len(o.Opens), "err": o.ErrText, "alloc": o.Alloc, "ms": o.Dur.Milliseconds()})
 		}
 	}
-	ioErrors(&sum, w)
+	wio := newWriter(out + ".io")
+	defer wio.Close()
+	ioErrors(&sum, wio)
 	fams["io-error"] = sum.Evaluations - len(families(tmp))
 	sum.Nontrivial = sum.Evaluations
 	sum.Note("events", w.N)
